@@ -73,15 +73,23 @@ type SchedExec struct {
 	// Hold, when non-nil, is consulted when a new task is created; a held task
 	// gets an enabledness predicate (stalled executor).
 	OnTask func(t *sched.Task)
-	n      int
+	mu     sync.Mutex
 }
 
 func (e *SchedExec) Exec(a netty.Action) {
-	e.n++
+	e.mu.Lock()
+	defer e.mu.Unlock()
 	name := "exec"
 	t := e.S.Go(name, e.SetUp, func() { a() })
 	e.Tasks = append(e.Tasks, t)
 	if e.OnTask != nil {
 		e.OnTask(t)
 	}
+}
+
+// TaskList returns a copy of the tasks created so far.
+func (e *SchedExec) TaskList() []*sched.Task {
+	e.mu.Lock()
+	defer e.mu.Unlock()
+	return append([]*sched.Task(nil), e.Tasks...)
 }
